@@ -63,6 +63,20 @@ def plan(tier, seed):
     for J in (1, 2):
         gs.append(Group('DTCWTForward[J=%d]' % J, MD.g_dtcwt_forward, (J, 2, -1, 'default'), functions=[(T2, 'DTCWTForward.forward')]))
         gs.append(Group('DTCWTInverse[J=%d]' % J, MD.g_dtcwt_inverse, (J, 2, -1, 'none'), functions=[(T2, 'DTCWTInverse.forward')]))
+    # autograd recording does not change what the scattering Functions return: each forward is proved equal to the SAME spec with
+    # requires_grad on and off (the groups of C08)
+    from .. import groups_scat as S
+    SLk = 'scatternet.lowlevel'
+    for rot in (False, True):
+        nm = 'ScatLayerj1_rot_f' if rot else 'ScatLayerj1_f'
+        for col in (False, True):
+            for rg in (True, False):
+                gs.append(Group('%s[colour=%s,requires_grad=%s]' % (nm, col, rg), S.g_scat_j1, (rot, col, rg), functions=[(SLk, nm + '.forward')],
+                                replay=rp('purity', kind='scat')))
+        nm2 = 'ScatLayerj2_rot_f' if rot else 'ScatLayerj2_f'
+        for rg in (True, False):
+            gs.append(Group('%s.forward[requires_grad=%s]' % (nm2, rg), S.g_scat_j2_forward, (rot, rg), functions=[(SLk, nm2 + '.forward')],
+                            replay=rp('purity', kind='scat2')))
     gs.append(Group('loaders[COEFF_CACHE]', T.g_loaders, functions=[('dtcwt.coeffs', '_load_from_file')]))
     gs.append(Group('READS/STATE syntactic scan', P.g_reads, replay=rp('history_order', family='all')))
     gs.append(Group('canary:write-through-contiguous()-of-an-argument', g_frame_canary, canary=True))
@@ -78,7 +92,7 @@ def plan(tier, seed):
             'FRAME (no call writes a storage it did not create, including through views and .contiguous()) and STATE/READS (no module attribute or module-level object is '
             'assigned or consulted, except the idempotent COEFF_CACHE fill) - interleavings themselves are NOT explored',
             'FRAME obligations are modular: every function is analysed with its callees replaced by contracts, and every callee in the catalogue carries its own FRAME obligation',
-            'scattering layers (scatternet/lowlevel.py) are covered by the syntactic READS scan and the bounded tier only'],
+            'scattering layers: READS scan, independence of the returned values from requires_grad (paired forward groups), bounded tier; no FRAME obligations (term mode has no effect analysis)'],
         'explanation': 'effect analysis carried by the symbolic executor: every in-place write (slice assignment, augmented assignment, out-of-place result of .contiguous() '
                        'that may alias) is recorded with its storage; FRAME obligation = none of them is reachable from an argument or a module buffer; plus AST scans for '
                        'module-level state, default-dtype / requires_grad reads, attribute stores outside __init__, decorators and closures',
